@@ -44,12 +44,23 @@ class Listener:
         pos = len(ctx.log)
         ctx.log.append((self.label, event, payload))
         fault = ctx.plan.get(pos)
+        if fault is None:
+            return
+        ctx.fired.append((pos, fault))
         if fault == 'raise':
-            ctx.fired.append((pos, 'raise'))
             raise Boom(f'at delivery {pos}')
-        if fault == 'disable':
-            ctx.fired.append((pos, 'disable'))
-            ctx.d.dispatch_enabled = False
+        ctx.d.dispatch_enabled = False
+        if fault == 'disable_dispatch':
+            # ... and dispatches a new event: it must queue *behind* the
+            # events that are still pending
+            ctx.counter += 1
+            fresh = Payload(ctx.counter)
+            ctx.keep.append(fresh)
+            ctx.injected.append(('e', fresh))
+            ctx.d.dispatch('e', fresh)
+        elif fault == 'disable_enable':
+            # ... and enables again from inside the callback: nested release
+            ctx.d.dispatch_enabled = True
 
     def on_e(self, payload):
         self._got('e', payload)
@@ -98,6 +109,7 @@ class DeferDriver:
         ctx.plan = {}
         ctx.fired = []
         ctx.keep = []
+        ctx.injected = []
         return ctx
 
     def _listening(self, ctx, event):
@@ -115,9 +127,13 @@ class DeferDriver:
             plans = [()]
             for nf in range(1, self.max_faults + 1):
                 for pos in itertools.combinations(range(n), nf):
-                    for kinds in itertools.product(('raise', 'disable'),
-                                                   repeat=nf):
+                    for kinds in itertools.product(
+                            ('raise', 'disable', 'disable_dispatch'),
+                            repeat=nf):
                         plans.append(tuple(zip(pos, kinds)))
+            # a nested release (disable, then enable again inside the
+            # callback) is explored as a single deviation
+            plans.extend(((pos, 'disable_enable'),) for pos in range(n))
             ops.extend(('enable', plan) for plan in plans)
         if backlog:
             # an event dispatched now has no specified position relative to
@@ -138,6 +154,7 @@ class DeferDriver:
         ctx.log = []
         ctx.plan = {}
         ctx.fired = []
+        ctx.injected = []
         kind = op[0]
         if kind == 'add':
             d.add_handler(ctx.listeners[op[1]])
@@ -218,6 +235,12 @@ class DeferDriver:
         pending = ctx.pending
         show = [(e, repr(p)) for e, p, _ in pending]
         pend_ids = {id(p) for _, p, _ in pending}
+        fresh_ids = {id(p) for _, p in ctx.injected}
+        early = [r for r in log if id(r[2]) in fresh_ids]
+        if early:
+            raise Violation('nothing_delivered_while_disabled',
+                            f'an event dispatched by a callback that had just '
+                            f'disabled dispatching was delivered: {early}')
         again = [r for r in log if id(r[2]) not in pend_ids]
         if again:
             raise Violation(
@@ -225,6 +248,25 @@ class DeferDriver:
                 f'pending {show}, but the release delivered {again} (whole '
                 f'log {log}): those events had been delivered before',
                 retry=retry)
+        counts = collections.Counter((r[0], id(r[2])) for r in log)
+        twice = [k for k, n in counts.items() if n > 1]
+        if twice:
+            raise Violation(
+                'delivered_once_per_listener',
+                f'pending {show}; release log {log} (faults {fired}) delivers '
+                f'an event twice to the same listener',
+                nested=bool(fired) and fired[0][1] == 'disable_enable')
+        nested = [f for f in fired if f[1] == 'disable_enable']
+        tail = []
+        if nested:
+            # [events before k][event k up to the fault][events after k, by
+            # the nested release][remaining listeners of event k: optional]
+            p = nested[0][0]
+            pk = log[p][2]
+            body = list(log)
+            while len(body) > p + 1 and body[-1][2] is pk:
+                tail.insert(0, body.pop())
+            log = body
         i = 0
         stop = None     # (k, kind): release stopped inside event k
         for k, (ev, payload, optional) in enumerate(pending):
@@ -236,20 +278,22 @@ class DeferDriver:
             if any(r[1] != ev for _, r in got):
                 raise Violation('delivered_under_its_name', f'{log}')
             names = [r[0] for _, r in got]
-            if len(names) != len(set(names)):
-                raise Violation('delivered_once_per_listener',
-                                f'event {ev}/{payload} delivered {names}')
-            if not set(names) <= set(listening):
+            extra = [r[0] for r in tail] if (nested and got and
+                                             got[-1][0] == nested[0][0]) else []
+            if not set(names + extra) <= set(listening):
                 raise Violation('delivered_to_registered_listeners',
-                                f'event {ev}/{payload} delivered to {names}, '
-                                f'registered listeners {listening}')
-            stopping = [f for f in fired
-                        if got and got[0][0] <= f[0] <= got[-1][0]
-                        and (f[1] == 'disable'
-                             or (f[1] == 'raise' and raised is not None))]
+                                f'event {ev}/{payload} delivered to '
+                                f'{names + extra}, registered listeners '
+                                f'{listening}')
+            here = [f for f in fired if got and got[0][0] <= f[0] <= got[-1][0]]
+            stopping = [f for f in here
+                        if f[1] in ('disable', 'disable_dispatch')
+                        or (f[1] == 'raise' and raised is not None)]
             if stopping:
                 stop = (k, stopping[0][1])
                 break
+            if any(f[1] == 'disable_enable' for f in here):
+                continue    # rest of this event may come after the nested one
             if optional and not got:
                 continue
             if sorted(names) != listening:
@@ -257,14 +301,15 @@ class DeferDriver:
                     'release_delivers_every_pending_event',
                     f'pending {show}: event {ev}/{payload} reached {names}, '
                     f'listeners registered at delivery time {listening}; '
-                    f'whole release log {log}; faults fired {fired}',
+                    f'whole release log {ctx.log}; faults fired {fired}',
                     lost=len(names) < len(listening), fault=bool(fired))
         if i != len(log):
             raise Violation(
                 'delivered_in_dispatch_order_exactly_once',
-                f'pending {show}, release log {log} (faults fired {fired}): '
-                f'entry {i} is out of order, repeated or not pending',
-                after_fault=stop is not None, retry=retry)
+                f'pending {show}, release log {ctx.log} (faults fired '
+                f'{fired}): entry {i} is out of order, repeated or not '
+                f'pending', after_fault=stop is not None, retry=retry,
+                nested=bool(nested))
         if raised is not None and stop is None:
             raise Violation('enable_raised_unexpectedly',
                             f'{raised!r} without a raising callback')
@@ -274,7 +319,12 @@ class DeferDriver:
         else:
             k, fk = stop
             ctx.pending = pending[k + 1:]
-            if fk == 'disable':
+            if fk == 'disable_dispatch':
+                for ev, fresh in ctx.injected:
+                    ctx.pending.append(
+                        (ev, fresh, not self._listening(ctx, ev)))
+                ctx.hits['dispatch_behind_backlog'] += 1
+            if fk in ('disable', 'disable_dispatch'):
                 ctx.enabled = False
             else:
                 # aborted by the exception: flag is whatever the dispatcher
@@ -322,6 +372,8 @@ def run(tier, rep):
         'callbacks do not register / unregister listeners during a release',
     ]
     rep.require_hits(release_backlog=1, fault_raise=1, fault_disable=1,
+                     fault_disable_dispatch=1, fault_disable_enable=1,
+                     dispatch_behind_backlog=1,
                      listeners_changed_while_pending=1,
                      queued_without_listener=1)
     for name, (driver, kw) in drivers(tier).items():
